@@ -14,7 +14,7 @@ pub struct TraceOut {
 }
 
 /// A recorder that writes more than this is broken (a quadratic blow-up): stop instead of filling the disk.
-const MAX_TRACE_BYTES: u64 = 6 << 30;
+const MAX_TRACE_BYTES: u64 = 10 << 30;
 
 impl TraceOut {
     pub fn new(dir: &Path, name: &str, shards: usize) -> Self {
